@@ -150,11 +150,13 @@ theorem eq_of_map_nodup {α β : Type} (f : α → β) : ∀ {l : List α}, (l.m
   | [], _, _, _, hx, _, _ => by cases hx
   | a :: l, hn, x, y, hx, hy, hxy => by
     rw [List.map_cons, List.nodup_cons] at hn
-    rcases List.mem_cons.1 hx with rfl | hx <;> rcases List.mem_cons.1 hy with rfl | hy
-    · rfl
-    · exact absurd (List.mem_map.2 ⟨y, hy, hxy.symm⟩) hn.1
-    · exact absurd (List.mem_map.2 ⟨x, hx, hxy⟩) hn.1
-    · exact eq_of_map_nodup f hn.2 hx hy hxy
+    rcases List.mem_cons.1 hx with hxa | hx
+    · rcases List.mem_cons.1 hy with hya | hy
+      · rw [hxa, hya]
+      · exact absurd (List.mem_map.2 ⟨y, hy, by rw [← hxy, hxa]⟩) hn.1
+    · rcases List.mem_cons.1 hy with hya | hy
+      · exact absurd (List.mem_map.2 ⟨x, hx, by rw [hxy, hya]⟩) hn.1
+      · exact eq_of_map_nodup f hn.2 hx hy hxy
 
 theorem mem_allUnits_of_dest {p : Proc N} {f : FuncU N} (hf : f ∈ p.outPorts ++ p.internal) : f.model ∈ p.allUnits := by
   unfold Proc.allUnits
@@ -244,13 +246,23 @@ theorem C09_check_iff (p : Proc N) : checkC09 fold p = true ↔ C09_Holds fold p
         unfold edgeB
         rw [List.any_eq_true]
         exact ⟨f, hf, by simp [hq]⟩
-      obtain ⟨c, _, hcb⟩ := h6 q f.model.name hedge
-      refine ⟨c, ?_, by
-        obtain ⟨c', hc1, hc2⟩ := h6 q f.model.name hedge
-        exact (h6 q f.model.name hedge).choose_spec.1 ▸ rfl⟩
-      sorry
-    · sorry
-    · sorry
+      obtain ⟨c, hca, hcb⟩ := h6 q f.model.name hedge
+      refine ⟨c, ?_, hca⟩
+      unfold supB at hcb
+      rw [List.any_eq_true] at hcb
+      obtain ⟨m, hm, hmc⟩ := hcb
+      simp only [Bool.and_eq_true, decide_eq_true_eq] at hmc
+      have hnd : (p.allUnits.map (·.name)).Nodup := h4.imp (fun h' heq => h' (congrArg fold heq))
+      have : m = f.model := eq_of_map_nodup (·.name) hnd hm (mem_allUnits_of_dest hf) hmc.1
+      rw [← this]; exact hmc.2
+    · rw [List.all_eq_true]; intro m hm
+      rw [List.all_eq_true]; intro c hc
+      have hmu := mem_allUnits_of_inBoundary hm
+      exact (reachesOutB_iff _ hconn h2 (hnames m hmu) (supB_of_mem hmu hc)).2 (h7 m hm c hc)
+    · rw [List.all_eq_true]; intro m hm
+      rw [List.all_eq_true]; intro c hc
+      have hmu := mem_allUnits_of_inBoundary hm
+      exact (locksExactB_iff _ hconn h2 (hnames m hmu) (supB_of_mem hmu hc)).2 (h8 m hm c hc)
 
 end Checker
 
